@@ -216,22 +216,25 @@ def fire (dests : List Dest) (q : Int → Int → Option CS) (cache : Option Cac
 
 /-! ## the property's demand -/
 
-/-- first element of `x :: rest` whose key is maximal -/
-def argBest (better : Nat → Nat → Bool) (x : Nat) (rest : List Nat) : Nat :=
-  rest.foldl (fun m v => if better v m then v else m) x
+/-- the window (its start, ns) a bar belongs to -/
+def winKey (cd : CandleDuration) (b : Bar) : Int := truncate cd utc (b.t * nsPerSec)
 
-/-- windows (by `truncSec`) present in a series, ascending when the series is ascending -/
-def windowsOf (cd : CandleDuration) (cs : CS) : List Int := (cs.map (fun b => truncSec cd b.t)).eraseDups
-
-/-- one bar per window having base bars: first open, highest high, lowest low, last close, total volume -/
-def specAgg (cd : CandleDuration) (cs : CS) : List Bar :=
-  (windowsOf cd cs).filterMap (fun w =>
-    match cs.filter (fun b => truncSec cd b.t == w) with
+/-- the bars of each window that has bars, windows in order of first appearance:
+    `(window, first bar, other bars)` -/
+def specGroups (key : Bar → Int) (cs : CS) : List (Int × Bar × List Bar) :=
+  (cs.map key).eraseDups.filterMap (fun w =>
+    match cs.filter (fun b => key b == w) with
     | [] => none
-    | b :: bs => some
-      { t := w, o := b.o, h := argBest (Mkts.Float.gt f32) b.h (bs.map (·.h)),
-        l := argBest (Mkts.Float.lt f32) b.l (bs.map (·.l)),
-        c := ((b :: bs).getLast (by simp)).c, v := (b.v :: bs.map (·.v)).foldl (· + ·) 0 })
+    | b :: bs => some (w, b, bs))
+
+/-- first open, highest high, lowest low, last close, total volume (exact integer sum).  `maxF` is
+    the first bar attaining the greatest value (see `maxF_spec`), `minF` dually. -/
+def specBar (g : Int × Bar × List Bar) : Bar :=
+  { t := g.1 / nsPerSec, o := g.2.1.o, h := maxF g.2.1.h (g.2.2.map (·.h)), l := minF g.2.1.l (g.2.2.map (·.l)),
+    c := ((g.2.1 :: g.2.2).getLast (by simp)).c, v := (g.2.1.v :: g.2.2.map (·.v)).foldl (· + ·) 0 }
+
+/-- one bar per window having base bars -/
+def specAgg (cd : CandleDuration) (cs : CS) : List Bar := (specGroups (winKey cd) cs).map specBar
 
 /-! ## a whole instance: base bucket, destination buckets, cache (one symbol) -/
 
@@ -286,5 +289,28 @@ def baseBars (st : St) : CS := barsOfSlots minuteNs st.base { start := none, sto
 
 def destBars (st : St) (d : Dest) : CS :=
   barsOfSlots d.duration (destGet st.dest d.str) { start := none, stop := none, limit := none }
+
+/-! ## the inputs the property speaks about -/
+
+def intradayB (cd : CandleDuration) : Bool :=
+  cd.suffix == Suffix.Sec || cd.suffix == Suffix.Min || cd.suffix == Suffix.H
+
+def isNaN32 (x : Nat) : Bool := Mkts.Float.isNaN f32 x
+
+/-- prices are numbers, volumes are non-negative, every destination is an intraday candle duration
+    and every window total fits the int32 volume column -/
+def barsInDomain (dests : List Dest) (cs : CS) : Bool :=
+  cs.all (fun b => !isNaN32 b.o && !isNaN32 b.h && !isNaN32 b.l && !isNaN32 b.c && decide (0 ≤ b.v)) &&
+  dests.all (fun d => match candleDurationFromString d.str with
+    | none => false
+    | some cd => intradayB cd && (specAgg cd cs).all (fun b => decide (b.v ≤ 2147483647)))
+
+/-- a history of write requests to the base bucket the property speaks about: 20-byte payloads, every
+    request non-empty and inside one year file, every bar ever written in the domain -/
+def histInDomain (dests : List Dest) (hist : List (List Row)) : Bool :=
+  hist.all (fun req => !req.isEmpty &&
+    req.all (fun r => r.payload.length == 20 &&
+      localYear utc (nsOfSec r.sec) == localYear utc (nsOfSec (req.headD r).sec))) &&
+  barsInDomain dests (hist.flatten.map (fun r => barOfPayload r.sec r.payload))
 
 end Mkts.OnDiskAgg
